@@ -33,7 +33,7 @@ class C02(Property):
         spec = gen_coupling.gen_dag(rnd, cycle="sufficient" if rnd.random() < 0.3 else None, parallel_prob=0.4)
         # enrich: extra delay adapters on random forward links (several delays on one link)
         for ln in spec["links"]:
-            if rnd.random() < 0.35 and not any(a[0] in gen_coupling.INTEG for a in ln["chain"]) and not ln["src"][0].startswith("p"):
+            if rnd.random() < 0.35 and not any(a[0] in gen_coupling.INTEG for a in ln["chain"]) and not ln["src"][0].startswith("p") and not ln.get("stateless_only"):
                 extra = [["dfix", rnd.choice([1, 2, 3, 6])], [rnd.choice(["scale", "probe"])], rnd.choice([["dfix", rnd.choice([1, 4, 7])], ["dpull", rnd.choice([1, 2]), rnd.choice([0, 2])]])]
                 pos = rnd.randint(0, len(ln["chain"]))
                 ln["chain"][pos:pos] = extra
